@@ -209,7 +209,7 @@ def gen(tier, rng):
         for pm in modes:
             for sm in modes:
                 yield _mk_hdr(rng, k, pm, sm, n)
-    nh, nt = (500, 500) if tier == "quick" else (6000, 6000)
+    nh, nt = (300, 350) if tier == "quick" else (6000, 6000)
     for i in range(nh):
         kind = rng.choice(["unit", "u64", "basic", "causal", "causal", "causal"])
         valid = rng.random() < 0.9
@@ -260,7 +260,8 @@ def _n(x):
 
 
 def _hx(runs):
-    return "(rl [%s])" % ";".join("(%d,%d%%N)" % (c, v) for c, v in runs)
+    # counts and bytes as N literals: nat literals are ~6x slower to parse in coqtop
+    return "(rl [%s]%%N)" % ";".join("(%d,%d)" % (c, v) for c, v in runs)
 
 
 def _opt(s):
@@ -346,7 +347,7 @@ def coq_oracle(case, impl):
     if case["kind"] == "hdr":
         toks, _, flags = impl.partition(" | ")
         f = dict(p.split("=") for p in flags.split())
-        return "check_hdr %s %s %s %s %d %d %d" % (
+        return "check_hdr %s %s %s %s %d%%N %d%%N %d%%N" % (
             _coq_hdr(case), _coq_toks(_parse_words(toks.split())), "true" if f["rt"] == "1" else "false",
             "true" if f["ver"] == "1" else "false", int(f["nenc"]), int(f["nhash"]), int(f["nver"]))
     if impl == "ERR":
